@@ -115,7 +115,12 @@ int wrapped_main(int argc, char *argv[])
 	   * format.  This option is mainly for regression testing.
 	   */
 	  if (!internal_dump_all_dialects(optarg))
-	    return 1;
+	    {
+	      /* A failure to open the file has already been reported,
+	       * but a failure to write the dump has not. */
+	      fprintf(stderr, "failed to dump the token maps to %s\n", optarg);
+	      return 1;
+	    }
 	  return 0;
 
 	case 'h':
